@@ -405,9 +405,12 @@ def part_pivot(tier):
   part = Part('pivot')
   subs = [('in_range(0,10)', v.in_range(0, 10), lambda x: ref.in_range(0, 10, x)),
           ("equals('a')", v.equals('a'), lambda x: ref.equals_str('a', x)),
-          ('within_percent(100,10)', v.within_percent(100, 10), lambda x: ref.within_percent(100, 10, x))]
+          ('within_percent(100,10)', v.within_percent(100, 10), lambda x: ref.within_percent(100, 10, x)),
+          # a sub-validator that looks at str(value): readings that are == but print differently are different readings
+          ('matches_regex(digits)', v.matches_regex(r'\d+$'), lambda x: re.match(r'\d+$', str(x)) is not None)]
   vals = {'in_range(0,10)': [0, 10, 11, -1, NAN, 5], "equals('a')": ['a', 'b', 'a\n', 'aa'],
-          'within_percent(100,10)': [90, 110, 111, 89.5, 100]}
+          'within_percent(100,10)': [90, 110, 111, 89.5, 100],
+          'matches_regex(digits)': [1, 1.0, True, 0, 0.0, 10**16, 1e16]}
   maxlen = 4 if tier == 'thorough' else 3
   for name, sub, pred in subs:
     dp = v.dimension_pivot_validate(sub)
@@ -500,6 +503,29 @@ def part_derive(tier):
       if str(t) != str(t2):
         part.bad('with_args:%s:template-mutated' % name, 'template prints %r after deriving, %r fresh' % (str(t), str(t2)),
                  {'case': name})
+  # limits that are falsy (0, 0.0, False) survive with_args() like any other limit
+  falsy = [(0, 10, None, None), (-5, 0, None, None), (0.0, 10, None, None), (False, 10, None, None), (-10, 10, 0, 5), (-10, 10, -5, 0),
+           (0, None, None, None), (None, 0, None, None), (0, 0, None, None), (-0.0, 5, None, None)]
+  for lims in falsy:
+    for args in ({}, {'x': 1}, {'lo': 3, 'hi': 4}):
+      base = v.InRange(*lims)
+      tag = 'with_args:falsy:%r:%r' % (lims, sorted(args))
+      try:
+        d = base.with_args(**args)
+      except Exception as e:  # pylint: disable=broad-except
+        part.bad('with_args:falsy:raised', '%s: with_args raised %s: %s' % (tag, type(e).__name__, e), {'case': tag})
+        continue
+      same_decisions(part, tag, d, v.InRange(*lims), nums + [-11, -10, -6, -5, -0.5, 0.5], marginal=True)
+  for spec in (0, 0.0, False, 5):
+    for args in ({}, {'x': 1}):
+      tag = 'with_args:falsy-equals:%r' % (spec,)
+      part.case((tag, repr(sorted(args))))
+      try:
+        d = v.equals(spec).with_args(**args)
+      except Exception as e:  # pylint: disable=broad-except
+        part.bad('with_args:falsy:raised', '%s: with_args raised %s: %s' % (tag, type(e).__name__, e), {'case': tag})
+        continue
+      same_decisions(part, tag, d, v.equals(spec), [0, 0.0, False, '', None, 5, '5', 1])
   # deep copies and equality
   objs = [
       ('in_range(0,10,2,8)', lambda: v.in_range(0, 10, 2, 8), True),
